@@ -157,17 +157,17 @@ PKG_BODIES = {12: ("[3] U [UB3]", [("key", 3), ("time", 3)]), 3: ("[950] O [7] U
 TIME_KEYS = {1: [932], 2: [934], 3: [932, 492, 934, 493]}
 
 
-def substituted_operands(ops):
-    """operands of the expression after one level of package expansion and time-condition replacement"""
+def substituted_operands(ops, packages=True, times=True):
+    """operands of the expression after one level of package expansion and / or time-condition replacement"""
     level1 = []
     for o in ops:
-        if o["t"] == "pkg":
+        if o["t"] == "pkg" and packages:
             level1 += [{"t": t, "n": n} for t, n in PKG_BODIES[o["n"]][1]]
         else:
             level1.append(o)
     out = []
     for o in level1:
-        if o["t"] == "time":
+        if o["t"] == "time" and times:
             out += [{"t": "key", "n": k} for k in TIME_KEYS[o["n"]]]
         else:
             out.append(o)
@@ -208,18 +208,26 @@ def long_expressions(res, work, n):
                     ops.append({"t": "pkg", "n": rng.randint(1, 30)})
                 else:
                     ops.append({"t": "time", "n": rng.randint(1, 3)})
-            resolve = tid % 3 == 0
-            if resolve:
-                # with package and time-condition resolution: the extract is the extract of the substituted expression (C10)
+            # the two flags independently: the extract is the extract of the expression after exactly the requested substitutions (C10)
+            resolve_p, resolve_t = [(False, False), (False, False), (True, True), (False, True), (True, False), (True, True)][tid % 6]
+            if resolve_p:
                 for o in ops:
                     if o["t"] == "pkg":
                         o["n"] = rng.choice(list(PKG_BODIES))
-                ahb.set_cer_values(packages={f"{n}P": body[0] for n, body in PKG_BODIES.items()})
+            ahb.set_cer_values(packages={f"{n}P": body[0] for n, body in PKG_BODIES.items()})
             expr = render(ops, rng)
+            if rng.random() < 0.5:
+                # history: the same string was asked before with other flag values (the answer belongs to the call, not to the string)
+                hp, ht = rng.choice([c for c in [(False, False), (True, True), (False, True), (True, False)] if c != (resolve_p, resolve_t)])
+                try:
+                    await extract_categorized_keys(expr, resolve_packages=hp, replace_time_conditions=ht)
+                except BaseException:  # noqa: BLE001 - only the judged call counts
+                    pass
+                res.count("long_expressions_asked_before_with_other_flags")
             try:
-                x = await extract_categorized_keys(expr, resolve_packages=resolve, replace_time_conditions=resolve)
-                if resolve:
-                    ops = substituted_operands(ops)
+                x = await extract_categorized_keys(expr, resolve_packages=resolve_p, replace_time_conditions=resolve_t)
+                if resolve_p or resolve_t:
+                    ops = substituted_operands(ops, resolve_p, resolve_t)
                 rc, hint, fc, pkg, tm = real_lists(x)
                 ncers = -1
                 if len(rc) + len(fc) >= 1 and len(rc) <= 4 and len(fc) <= 4:
